@@ -22,19 +22,18 @@ LEVEL = "exploration"
 TECHNIQUE = "small-scope exhaustive enumeration of header values, dump -> parse round trip and normal form"
 DESIGN_REF = "DESIGN.md §4 C06"
 RULE = (
-    "values = all strings of <= 4 atoms (5 thorough) over {a B SP \" \\ , ; = * ' % e-acute TAB %22 W/}, <= 5 (7) "
+    "values = all strings of <= 5 atoms over {a B SP \" \\ , ; = * ' % e-acute TAB %22 W/}, <= 6 (7 thorough) "
     "over the 8 critical atoms, every BMP code point (minus CR/LF/surrogates) in 3 contexts and injection-shaped "
-    "values, through quote / list / dict / options / set; pairs of values 2x2 and 3x1 (thorough 3x3), triples 1x1x1 "
-    "(2x2x1 in every position), dicts with token keys and bare keys; all strong/weak subsets of 8 etags and single "
-    "etags <= 2 (3) atoms weak and strong; every list of <= 3 closed ranges over 0..5 with every open/suffix tail, 2 "
+    "values, through quote / list / dict / options / set; pairs of values 3x2 both ways (thorough 3x3), triples 2x2x1 in every position, dicts with token keys and bare keys; all strong/weak subsets of 8 etags and single "
+    "etags <= 3 atoms weak and strong, a second universe of 8 syntax look-alike tags; every list of <= 3 closed ranges over 0..5 with every open/suffix tail, 2 "
     "units; every valid content range <= 6; If-Range etags, dates and the empty value; every single, ordered pair and "
     "ordered triple of typed cache-control directives (5 int values incl. negative, 7 str values) for both classes; "
-    "every CSP directive property x 8 values, pairs over all directives (triples thorough); a date grid (6 years x 12 "
-    "months x 5 days x 3 times x 9 zones, every 15-minute offset, every day of 2 (5) years, date objects); ages; Basic "
-    "credentials <= 2 atoms each side; token and parameter schemes with <= 3 parameters (values <= 2 atoms thorough); "
-    "normal-form law on raw text: generic headers <= 3 (4) atoms incl. RFC 2231 charset / continuation forms, and per-"
+    "every CSP directive property x 8 values, pairs over all directives and triples; a date grid (6 years x 12 "
+    "months x 5 days x 3 times x 9 zones, every 15-minute offset, every day of 5 years, date objects); ages; Basic "
+    "credentials <= 2 atoms each side; token and parameter schemes with <= 3 parameters (values <= 2 atoms); "
+    "normal-form law on raw text: generic headers <= 4 atoms incl. RFC 2231 charset / continuation forms, and per-"
     "grammar raw headers (Range, Content-Range, dates in 3 formats with zones, Age, If-Range, Authorization / "
-    "WWW-Authenticate, Cache-Control, CSP) <= 3-4 (4-5) atoms of the parser's own tokens. non-trivial = distinct "
+    "WWW-Authenticate, Cache-Control, CSP) <= 4-5 atoms of the parser's own tokens (dates 4, thorough 5). non-trivial = distinct "
     "(family, value) whose serialisation differs from the plain value text (kept as a set for the quick-sized layers)."
 )
 ASSUMPTIONS = [
@@ -487,7 +486,7 @@ def csp_directives():
 RAW_A = ["a", "B", " ", '"', "\\", ",", ";", "=", "k=", "W/", "*", "\xe9", "%22", '"a"',
          "k*=", "UTF-8''", "%C3%A9", "k*0=", ";k*1=", "iso-8859-1'en'", "%FF", "\\\""]
 CRIT = ["a", " ", '"', "\\", ",", ";", "=", "\xe9"]
-DEEP_KINDS = {"strN", "strcrit", "pairs33", "triples2", "raw-deep", "auth-deep", "etag-single-deep", "rawg-deep"}
+DEEP_KINDS = {"strN", "strcrit", "pairs33", "pairs32", "triples2", "raw-deep", "auth-deep", "etag-single-deep", "rawg-deep"}
 
 # raw header grammars: each parser's own tokens glued the way real headers glue them
 RAWG = {
@@ -508,33 +507,37 @@ RAWG = {
 def units(tier):
     T = tier == "thorough"
     us = []
-    # deep layers first (the longest units)
-    if T:
-        nA = len(A)
-        for i in range(nA):
-            for j in range(nA):
-                us.append(("strN", 5, i, j))
-        for i in range(len(CRIT)):
-            for j in range(len(CRIT)):
-                us.append(("strcrit", 6, i, j))
+    # deep layers first (the longest units); the quick tier takes the most valuable of them (round 3 promotion)
+    nA = len(A)
+    for i in range(nA):
+        for j in range(nA):
+            us.append(("strN", 5, i, j))
+    for i in range(len(CRIT)):
+        for j in range(len(CRIT)):
+            us.append(("strcrit", 6, i, j))
+            if T:
                 us.append(("strcrit", 7, i, j))
-        n3 = len(S(3))
+    n3 = len(S(3))
+    n2 = len(S(2))
+    for i in range(0, n2, 2):
+        us.append(("triples2", i, min(n2, i + 2), True))
+    if T:
         for i in range(0, n3, 6):
             us.append(("pairs33", i, min(n3, i + 6)))
-        n2 = len(S(2))
-        for i in range(0, n2, 2):
-            us.append(("triples2", i, min(n2, i + 2)))
-        for i in range(0, n2, 4):
-            us.append(("auth-deep", i, min(n2, i + 4)))
-        for i in range(0, n3, 200):
-            us.append(("etag-single-deep", i, min(n3, i + 200)))
-        for i in range(len(RAW_A)):
-            for j in range(len(RAW_A)):
-                us.append(("raw-deep", i, j))
-        for g, atoms in RAWG.items():
-            for i in range(len(atoms)):
-                for j in range(len(atoms)):
-                    us.append(("rawg-deep", g, i, j))
+    else:
+        for i in range(0, n3, 20):
+            us.append(("pairs32", i, min(n3, i + 20)))
+    for i in range(0, n2, 4):
+        us.append(("auth-deep", i, min(n2, i + 4)))
+    for i in range(0, n3, 200):
+        us.append(("etag-single-deep", i, min(n3, i + 200)))
+    for i in range(len(RAW_A)):
+        for j in range(len(RAW_A)):
+            us.append(("raw-deep", i, j))
+    for g, atoms in RAWG.items():
+        for i in range(len(atoms)):
+            for j in range(len(atoms)):
+                us.append(("rawg-deep", g, i, j, T))
     n3 = len(S(3))
     step = 200
     for i in range(0, n3, step):
@@ -567,15 +570,15 @@ def units(tier):
         us.append(("cache-control", w))
         n = len(cc_domain(w))
         for i in range(n):
-            us.append(("cache-control3", w, i, T))
+            us.append(("cache-control3", w, i, True))
     us.append(("csp",))
     for i in range(len(csp_directives())):
-        us.append(("csp2", i, T))
+        us.append(("csp2", i, True))
     for y in YEARS:
         us.append(("dates", y))
-    for y in (YEARS_FULL if T else YEARS_FULL[:2]):
+    for y in YEARS_FULL:
         for mo in range(1, 13):
-            us.append(("dates-days", y, mo, T))
+            us.append(("dates-days", y, mo, True))
     us.append(("dates-offsets",))
     us.append(("ages",))
     for i in range(len(BASIC_A) + 1):
@@ -659,16 +662,16 @@ def _run_unit(unit, R, tier):
             check(R, "set", [v])
         U.used.add(kind)
         return
-    if kind in ("pairs33", "pairs31"):
+    if kind in ("pairs33", "pairs31", "pairs32"):
         s3 = S(3)
-        others = s3 if kind == "pairs33" else S(1)
+        others = s3 if kind == "pairs33" else (S(1) if kind == "pairs31" else S(2))
         for v in s3[unit[1]:unit[2]]:
             for w in others:
                 check(R, "list", [v, w])
                 check(R, "dict", {"k": v, "Key2": w})
                 if _opt_ok(v) and _opt_ok(w):
                     check(R, "options", ("form-data", {"k": v, "key2": w}))
-                if kind == "pairs31":
+                if kind != "pairs33":
                     check(R, "list", [w, v])
                     check(R, "dict", {"k": w, "Key2": v})
                     if _opt_ok(v) and _opt_ok(w):
@@ -682,7 +685,7 @@ def _run_unit(unit, R, tier):
                 for c in s1:
                     for t in ((a, b, c), (a, c, b), (c, a, b)):
                         check(R, "list", list(t))
-                        if _opt_ok(a) and _opt_ok(b) and _opt_ok(c):
+                        if unit[3] and _opt_ok(a) and _opt_ok(b) and _opt_ok(c):      # quick: lists only
                             check(R, "options", ("form-data", {"name": t[0], "filename": t[1], "k": t[2]}))
         U.used.add(kind)
         return
@@ -771,8 +774,10 @@ def _run_unit(unit, R, tier):
             heads = [(RAWG[g][i], depth - 1)]
             lo = 0
         else:
-            _k, g, i, j = unit
+            _k, g, i, j, full = unit
             deep = 5 if g in ("content-range", "age", "csp", "date") else 4
+            if g == "date" and not full:
+                deep = 4           # quick: one more atom than the "rawg" units; thorough: two more
             heads = [(RAWG[g][i] + RAWG[g][j], deep - 2)]
             lo = deep - 2          # only the new layer (shallower ones are in the quick units)
             if g == "date":
@@ -1206,15 +1211,18 @@ def finalize(R, tier):
                                               "rawg-hit:content-range", "rawg-hit:date", "rawg-hit:age",
                                               "rawg-hit:if-range-date", "rawg-hit:if-range-etag", "rawg-hit:auth",
                                               "rawg-hit:cache-control", "rawg-hit:csp", "etags2", "range-open-forms"}
+    need |= {"strcrit", "auth-deep", "triples2"}
     if tier == "thorough":
-        need |= {"strcrit", "pairs33", "triples2", "auth-deep"}
+        need |= {"pairs33"}
+    else:
+        need |= {"pairs32"}
     missing = need - R.used
     if missing:
         raise core.Broken(f"vacuity: never exercised {sorted(missing)}")
     if len(R.sets.get("nontrivial", ())) < 20000:
         raise core.Broken("vacuity: too few values needed quoting / escaping / conversion")
-    return {"bound": ("strings <= 4 atoms (5 over the 8 critical atoms), pairs 2x2 and 3x1, triples 1x1x1, raw headers <= 3 "
-                      "atoms, grammar headers <= 3-4 atoms" if tier == "quick" else
+    return {"bound": ("strings <= 5 atoms (6 over the 8 critical atoms), pairs 3x2, triples 2x2x1, raw headers <= 4 "
+                      "atoms, grammar headers <= 4-5 atoms" if tier == "quick" else
                       "strings <= 5 atoms (7 over the 8 critical atoms), pairs 3x3, triples 2x2x1, raw headers <= 4 atoms, "
                       "grammar headers <= 4-5 atoms") + ", lists <= 3, dicts <= 3, ranges <= 3 + tail over 0..5",
             "exhaustive": True, "families": len(CODECS)}
